@@ -536,7 +536,15 @@ class KTHierarchyPropagator:
         """Propagates the Kubo-Tanimura Hierarchy including the RDO
         
         """
-        rhot = DensityMatrixEvolution(timeaxis=self.timeaxis, rhoi=rhoi)
+        # The hierarchy is propagated in the rotating frame, which is tied to
+        # absolute time; the initial state is the state at the first point
+        # of the time axis and it is brought into the rotating frame there
+        # (no change if the axis starts at zero). The result is marked as
+        # being in the rotating frame, so that it can be converted back.
+        rhoi = self._initial_state_in_RWA(rhoi)
+        
+        rhot = DensityMatrixEvolution(timeaxis=self.timeaxis, rhoi=rhoi,
+                                      is_in_rwa=True)
         
         # every propagation starts from an empty hierarchy
         self.hy.reset_ados()
@@ -601,6 +609,23 @@ class KTHierarchyPropagator:
             indx += 1             
             
         return rhot
+
+
+    def _initial_state_in_RWA(self, rhoi):
+        """Returns the initial state in the rotating frame
+
+        The frame rotates as exp(-i Omega t) with the absolute time t (this
+        is what `convert_from_RWA` undoes). A new object is returned, the
+        state submitted by the user is not changed.
+
+        """
+        t0 = self.timeaxis.data[0]
+        if t0 == 0.0:
+            return rhoi
+        HOmega = numpy.diag(self.HOmega)
+        Ut = numpy.diag(numpy.exp(1j*HOmega*t0))
+        return ReducedDensityMatrix(data=numpy.dot(Ut,
+                                    numpy.dot(rhoi.data, numpy.conj(Ut))))
 
 
     def _ado_self_rhs(self, ado1, dt, slevel=0):
